@@ -108,6 +108,14 @@ func init() {
 		Old: "\tn, err = rw.conn.Read(data)\n\tif deadlineErr := rw.conn.SetReadDeadline(time.Time{}); deadlineErr != nil {\n\t\treturn n, deadlineErr\n\t}\n", New: "\tn, err = rw.conn.Read(data)\n", Expect: "readWriterConnTimeout.Read"})
 	seed(Seed{Name: "shutdown-test-under-state-change", Prop: "C19", Rule: "FD-FAILBRANCH", File: res + "fd.go",
 		Old: "new state = %v. Due to rpc call error: %v\", res.archetypeID, oldState, failed, err)\n\t\t\t}\n\t\t\tif err == rpc.ErrShutdown {\n\t\t\t\tres.reDial = true\n\t\t\t}\n", New: "new state = %v. Due to rpc call error: %v\", res.archetypeID, oldState, failed, err)\n\t\t\t\tif err == rpc.ErrShutdown {\n\t\t\t\t\tres.reDial = true\n\t\t\t\t}\n\t\t\t}\n", Expect: "shutdown-tested-for-every-rpc-error"})
+	seed(Seed{Name: "nested-commit-may-time-out", Prop: "C01", Rule: "NESTED-DECISION", File: res + "nestedarch.go",
+		Old: "resp, err := res.performRequest(nestedArchetypeCommitReq)", New: "resp, err := res.performRequestOrAbort(nestedArchetypeCommitReq)", Expect: "Commit:request"})
+	seed(Seed{Name: "nested-write-ignores-refusal", Prop: "C01", Rule: "NESTED-DECISION", File: res + "nestedarch.go",
+		Old: "return res.handleResponseValue(resp, true, nestedArchetypeWriteAck)", New: "return res.handleResponseValue(resp, false, nestedArchetypeWriteAck)", Expect: "WriteValue:accepted-responses"})
+	seed(Seed{Name: "nested-read-skips-tag-check", Prop: "C01", Rule: "NESTED-DECISION", File: res + "nestedarch.go",
+		Old: "\terr = res.handleResponseValue(resp, true, nestedArchetypeReadAck)\n\tif err != nil {\n\t\treturn tla.Value{}, err\n\t}\n", New: "\t_ = res.handleResponseValue(resp, true, nestedArchetypeReadAck)\n", Expect: "ReadValue"})
+	seed(Seed{Name: "nested-refusal-accepted-anywhere", Prop: "C01", Rule: "NESTED-DECISION", File: res + "nestedarch.go",
+		Old: "if allowAborted && tpe.Equal(nestedArchetypeAborted) {", New: "if allowAborted || tpe.Equal(nestedArchetypeAborted) {", Expect: "handleResponseValue"})
 	seed(Seed{Name: "merge-second-loop-reuses-iterator", Prop: "C12", Rule: "ITER-FRESH", File: res + "aworset.go",
 		Old: "\ti = remK.Iterator()\n", New: "", Expect: "AWORSet.Merge"})
 }
